@@ -115,7 +115,9 @@ def finish(prop, tier, REG, results, lemma_results, wall, write_evidence=True):
         with open(os.path.join(ROOT, rp), "w") as f:
             json.dump(doc, f, indent=1, default=str)
         status, out = ("no-builder", "")
-        if a["failed"] and a.get("replay") and w.get("inputs"):
+        # a builder named *_search needs no counter-model: it looks for a failing input of the named clause natively
+        # (bounded search on the real code); finding none leaves the violation as no-failing-input-found
+        if a.get("replay") and ((a["failed"] and w.get("inputs")) or a["replay"].endswith("_search")):
             status, out = native_replay(os.path.join(ROOT, rp))
             doc["native_replay"] = {"status": status, "output": out}
             with open(os.path.join(ROOT, rp), "w") as f:
